@@ -317,6 +317,36 @@ def gen_license_stream(rng, lics_all, maxlen=10):
 GROUP_POOL = ["G", "H", "N", "K", "TOP"]
 
 
+def flattening_diverges(raw, cap=4000):
+    """Licenses._expand_groups never terminates (lists double every pass) on some cyclic files, e.g.
+    'H @G x' / 'G y @G @H' (a self reference inside a reference cycle).  Simulate the passes with a
+    size cap so that such a file is never handed to the real code inside the check."""
+    groups = {k: list(dict.fromkeys(v)) for k, v in raw}
+    for _ in range(64):
+        again = False
+        for k, v in groups.items():
+            if not any(x.startswith("@") for x in v):
+                continue
+            again = True
+            l = []
+            for m in v:
+                if m.startswith("@"):
+                    h = m[1:]
+                    if h and h in groups and h != k:
+                        l.extend(groups[h])
+                else:
+                    l.append(m)
+            if len(l) > cap:
+                return True
+            groups[k] = l
+        if not again:
+            return False
+    return True
+
+
+DIVERGING_WITNESS = [("H", ["@G", "BSD"]), ("G", ["MIT", "@G", "@H"])]
+
+
 def gen_group_defs(rng, lics_all):
     """nested definitions: a reference chain of depth 1..4 (TOP -> K -> N -> H -> G style) plus side
     references, a missing group, sometimes a self reference or a 2-cycle; written in a random
@@ -346,7 +376,10 @@ def gen_group_defs(rng, lics_all):
         keys.reverse()
     elif order == "shuffled":
         rng.shuffle(keys)
-    return [(k, defs[k]) for k in keys]
+    raw = [(k, defs[k]) for k in keys]
+    if flattening_diverges(raw):            # recorded finding cyclic-groups-diverge; not fed to the code
+        return gen_group_defs(rng, lics_all)
+    return raw
 
 
 def gen_groups(rng, lics_all, make_licenses):
@@ -908,6 +941,26 @@ def main(chk: Check):
         if depth_refs >= 2:
             chk.nontrivial(("g", repr(g.files)))
     chk.count("groups", len(groups_cases))
+
+    # the diverging cyclic file, in a subprocess with an address-space limit and a timeout
+    import subprocess
+    import sys
+    probe = ("import resource,logging;resource.setrlimit(resource.RLIMIT_AS,(1<<30,1<<30));"
+             "logging.getLogger('pkgcore').setLevel(50);"
+             "from pkgcore.ebuild.repo_objs import Licenses;"
+             "d=%r;Licenses._expand_groups(None,d);print(sorted((k,sorted(set(v))) for k,v in d.items()))"
+             % {k: set(v) for k, v in DIVERGING_WITNESS})
+    try:
+        pr = subprocess.run([sys.executable, "-c", probe], capture_output=True, text=True, timeout=3)
+        diverged = pr.returncode != 0
+    except subprocess.TimeoutExpired:
+        diverged = True
+    chk.count("groups_cyclic_probe", 1)
+    if diverged:
+        if not chk.known_finding("cyclic-groups-diverge",
+                                 {"license_groups": [k + " " + " ".join(m) for k, m in DIVERGING_WITNESS]}):
+            chk.violation("property", {"what": "Licenses._expand_groups does not terminate / exhausts memory",
+                                       "input": {"license_groups": [k + " " + " ".join(m) for k, m in DIVERGING_WITNESS]}})
 
     pull_cases, nipull_cases = [], []
     for fd, srcs, pre in pull_in:
